@@ -492,6 +492,42 @@ def r_fmtbound(P, chk):
                               "short (or overruns the buffer) whenever it needs the whole allocation" % (
                                   f.name, dst, f.src(size_e), f.src(c["c"][2])))
     chk.floor(rid, n, 1, "(v)snprintf calls into a buffer allocated in the same function")
+    # C99 7.19.6.5: the result r of (v)snprintf(buf, N, ..) is the length the text needs; it was written completely iff r < N.
+    # A test that counts r == N as "it fit" (r <= N, or r > N as the overflow test) hands on text that lost its last character.
+    nres = 0
+    for f in P.all_funcs:
+        if not P.first_party(f) or f.unit.base in ("miniz.c", "argtable3.c"):
+            continue
+        for x in f.walk():
+            rv = rhs = None
+            if x["k"] == "VarDecl" and x.get("c") and x["c"][0] is not None:
+                rv, rhs = x["n"], strip(x["c"][0])
+            elif x["k"] == "BinaryOperator" and x["op"] == "=":
+                rv, rhs = key(x["c"][0]), strip(x["c"][1])
+            if rhs is None or rhs["k"] != "CallExpr" or rhs.get("callee") not in ("snprintf", "vsnprintf") or len(rhs["c"]) <= 3:
+                continue
+            nres += 1
+            N = rhs["c"][2]
+            nk, nv = key(N), const_value(N)
+            for y in f.walk():
+                if y["k"] != "BinaryOperator" or y["op"] not in ("<", "<=", ">", ">="):
+                    continue
+                a, b = y["c"]
+                for left, right, op in ((a, b, y["op"]), (b, a, {"<": ">", "<=": ">=", ">": "<", ">=": "<="}[y["op"]])):
+                    if key(left) != rv:
+                        continue
+                    same = key(right) == nk or (nv is not None and nv > 1 and const_value(right) == nv)
+                    if not same:
+                        continue
+                    ok = op in ("<", ">=")
+                    chk.obligation(rid, "%s %s: result of %s(.., %s, ..) compared with its bound as `%s`" % (
+                        f.where(y), f.name, rhs["callee"], f.src(N), f.src(y)), ok)
+                    if not ok:
+                        chk.violation(rid, "fmtfit:%s:%s" % (f.name, rv), f.where(y),
+                                      "%s treats `%s == %s` as \"the formatted text fit\": %s returns the length needed and has written "
+                                      "only %s - 1 characters in that case, so the text loses its last character" % (
+                                          f.name, rv, f.src(N), rhs["callee"], f.src(N)))
+    chk.floor(rid, nres, 1, "(v)snprintf calls whose result is kept")
 
 
 def r_valist(P, chk):
